@@ -53,6 +53,16 @@ var specConsts = map[string]*big.Int{
 	"W2": new(big.Int).Lsh(big1, 128), "W3": new(big.Int).Lsh(big1, 192), "W4": bigR, "W5": new(big.Int).Lsh(big1, 320),
 	"R2P": new(big.Int).Mod(new(big.Int).Mul(bigR, bigR), bigP), "R2N": new(big.Int).Mod(new(big.Int).Mul(bigR, bigR), bigN),
 	"HALFN": new(big.Int).Rsh(bigN, 1),
+	"GX": hexBig("79be667ef9dcbbac55a06295ce870b07029bfcdb2dce28d959f2815b16f81798"),
+	"GY": hexBig("483ada7726a3c4655da4fbfc0e1108a8fd17b448a68554199c47d08ffb10d4b8"),
+}
+
+func hexBig(s string) *big.Int {
+	v, ok := new(big.Int).SetString(s, 16)
+	if !ok {
+		panic("bad hex constant")
+	}
+	return v
 }
 
 func (env *SpecEnv) term(x ast.Expr) *Term {
@@ -714,6 +724,24 @@ func (env *SpecEnv) call(n *ast.CallExpr) Value {
 	if h, ok := specFuncs[fn.Name]; ok {
 		return h(env, n)
 	}
+	if d, ok := env.e.db.Defines[fn.Name]; ok {
+		if len(args) != len(d.Params) {
+			env.fail("%s expects %d arguments", fn.Name, len(d.Params))
+		}
+		sub := &SpecEnv{e: env.e, st: env.st, old: env.old, vars: map[string]Value{}, fnName: "define " + d.Name, pkg: env.pkg, inOld: env.inOld}
+		for i, p := range d.Params {
+			t := env.term(args[i])
+			if t.Sort != p.Sort {
+				if t.Sort == SInt && modulusOf(p.Sort) != nil {
+					t = mkToRing(p.Sort, t)
+				} else {
+					env.fail("argument %d of %s has sort %s, want %s", i, fn.Name, t.Sort, p.Sort)
+				}
+			}
+			sub.vars[p.Name] = t
+		}
+		return sub.eval(d.Body)
+	}
 	// lemma-style uninterpreted spec function: all args are terms
 	if sig, ok := ufSigs[fn.Name]; ok {
 		if len(args) != len(sig.args) {
@@ -730,9 +758,12 @@ func (env *SpecEnv) call(n *ast.CallExpr) Value {
 				}
 			}
 		}
-		t := mkApp(fn.Name, sig.res, ts...)
-		t.Lo, t.Hi = sig.lo, sig.hi
-		return t
+		if sig.lo != nil {
+			t := mkApp(fn.Name, sig.res, ts...)
+			t.Lo, t.Hi = sig.lo, sig.hi
+			return t
+		}
+		return liftApp(fn.Name, sig.res, ts...)
 	}
 	env.fail("unknown spec function %s", fn.Name)
 	return nil
@@ -757,6 +788,68 @@ var ufSigs = map[string]ufSig{
 }
 
 var specFuncs = map[string]func(env *SpecEnv, n *ast.CallExpr) Value{}
+
+// liftApp builds an uninterpreted application, distributing over ite-valued arguments.
+func liftApp(name string, s Sort, args ...*Term) *Term {
+	for i, a := range args {
+		if a.Op == "ite" && (isRing(a.Sort) || a.Sort == SPt) {
+			c := a.Args[0]
+			l := make([]*Term, len(args))
+			r := make([]*Term, len(args))
+			for j, b := range args {
+				if j == i {
+					l[j], r[j] = a.Args[1], a.Args[2]
+				} else {
+					l[j], r[j] = restrict(b, c, true), restrict(b, c, false)
+				}
+			}
+			return mkIte(c, liftApp(name, s, l...), liftApp(name, s, r...))
+		}
+	}
+	return mkApp(name, s, args...)
+}
+
+func (env *SpecEnv) pointCoords(x ast.Expr) (*Term, *Term, *Term) {
+	r := env.asRef(env.eval(x), x)
+	st, ok := underlying(r.typ).(*types.Struct)
+	if !ok {
+		env.fail("abs/onc: %s is not a struct", exprString(x))
+	}
+	get := func(name string) *Term {
+		for i := 0; i < st.NumFields(); i++ {
+			if st.Field(i).Name() == name {
+				return env.valOf(&RefVal{reg: r.reg, path: extend(r.path, i), typ: st.Field(i).Type()}, x).(*Term)
+			}
+		}
+		env.fail("abs/onc: no field %s", name)
+		return nil
+	}
+	hasZ := false
+	for i := 0; i < st.NumFields(); i++ {
+		if st.Field(i).Name() == "z" {
+			hasZ = true
+		}
+	}
+	if !hasZ {
+		return get("x"), get("y"), mkRingConst(SFp, big1)
+	}
+	return get("x"), get("y"), get("z")
+}
+
+func init() {
+	// abs(p): abstract point represented by a *Point (or affinePoint with z = 1)
+	specFuncs["abs"] = func(env *SpecEnv, n *ast.CallExpr) Value {
+		x, y, z := env.pointCoords(n.Args[0])
+		return substitute(liftApp("pt", SPt, x, y, z), env.state().subst)
+	}
+	// onc(p): the coordinates of p satisfy the projective curve equation
+	specFuncs["onc"] = func(env *SpecEnv, n *ast.CallExpr) Value {
+		x, y, z := env.pointCoords(n.Args[0])
+		d := env.e.db.Defines["oncurve"]
+		sub := &SpecEnv{e: env.e, st: env.st, old: env.old, vars: map[string]Value{"X": x, "Y": y, "Z": z}, fnName: "onc", inOld: env.inOld}
+		return sub.eval(d.Body)
+	}
+}
 
 func (env *SpecEnv) freshSince(r *Region) bool {
 	if env.old == nil {
